@@ -15,7 +15,12 @@ import ast
 # locals inlined, `if c: return A` + `return B` -> `return A if c else B`).
 
 def _ends_flow(stmts):
-  return bool(stmts) and isinstance(stmts[-1], (ast.Return, ast.Raise))
+  if not stmts:
+    return False
+  last = stmts[-1]
+  if isinstance(last, (ast.Return, ast.Raise)):
+    return True
+  return isinstance(last, ast.If) and _ends_flow(last.body) and _ends_flow(last.orelse)
 
 
 def chainify(stmts):
@@ -237,3 +242,28 @@ def inline_private_helpers(stmts, helpers, depth=3):
     if not changed:
       break
   return stmts
+
+
+def normalize_nested(stmts, keep=()):
+  """`expand_dict_locals` + `inline_single_use_locals` at every nesting level of if / elif / else blocks"""
+  stmts = inline_single_use_locals(expand_dict_locals(stmts), keep)
+  out = []
+  for st in stmts:
+    if isinstance(st, ast.If):
+      st = ast.fix_missing_locations(ast.If(test=st.test, body=normalize_nested(st.body, keep),
+                                            orelse=normalize_nested(st.orelse, keep)))
+    out.append(st)
+  return out
+
+
+def drop_trailing_bare_return(stmts):
+  """a bare `return` that ends a branch of a procedure (e.g. of `__init__`) after `chainify` is a no-op"""
+  out = []
+  for st in stmts:
+    if isinstance(st, ast.If):
+      st = ast.fix_missing_locations(ast.If(test=st.test, body=drop_trailing_bare_return(st.body),
+                                            orelse=drop_trailing_bare_return(st.orelse)))
+    out.append(st)
+  if len(out) > 1 and isinstance(out[-1], ast.Return) and out[-1].value is None:
+    out = out[:-1]
+  return out
